@@ -111,9 +111,10 @@ def main():
         if ck.thorough and len(s) == 7 and rng.random() < 0.8:
             continue
         cases.append(make_case([eg.apply_mask(s, tm)], [eg.apply_mask(s, gm)], 'exhaustive'))
-    # the docstring's family: repeated letters so that word types repeat
+    # the docstring's family: repeated letters so that word types repeat; mixed-case and accented alphabets, where the
+    # order of equal-count words (plain code-point order) differs from a case-folded or locale order
     for k in range(3000 if ck.thorough else 300):
-        text, gold, _ = eg.random_triple(rng, [['a', 'b'], ['a', 'b', 'c'], ['uː', 'dʒ', 'a']][k % 3],
+        text, gold, _ = eg.random_triple(rng, [['a', 'b'], ['a', 'b', 'c'], ['uː', 'dʒ', 'a'], ['a', 'A', 'B', 'b'], ['Z', 'a', '_', 'z', 'É', 'é']][k % 5],
                                          nutts=rng.randint(1, 6), maxunits=9)
         if k % 5 == 0:
             text = [eg.respace(rng, t) for t in text]
@@ -123,6 +124,13 @@ def main():
             idx = [i for i in range(len(text)) for _ in range(rng.choice([1, 2, 3]))]
             rng.shuffle(idx)
             cases.append(make_case([text[i] for i in idx], [gold[i] for i in idx], 'random-repeated-utterances'))
+    # utterances of more than a thousand words, with more than a thousand chunks of every kind
+    w = ['ab', 'a', 'b', 'ba']
+    gold_long = ' '.join(w[i % 4] for i in range(2600))
+    chars = gold_long.replace(' ', '')
+    cases.append(make_case([' '.join(chars)], [gold_long], 'long-utterance'))                                   # over-segmented
+    cases.append(make_case([gold_long], [' '.join(chars)], 'long-utterance'))                                   # under-segmented
+    cases.append(make_case([' '.join(chars[i:i + 3] for i in range(0, len(chars), 3))], [gold_long], 'long-utterance'))   # mis-segmented
     correspond(ck, cases)
     n, problems = ck.coq_recheck()
     finish_proof_failures(ck, failures + problems)
